@@ -237,6 +237,287 @@ def stream_misuse(ctx, h, m):
                dist, mismatches=nfail, process_deaths=deaths, corpus_cases=ncorpus, failure_classes=keys_seen)
 
 
+# ---------------------------------------------------------------- c25.sched (Go API, controlled multi-thread scripts)
+
+CORPUS_SCHED = os.path.join(vlib.ROOT, "corpus", "C25.sched.txt")
+SCHED_OPS = {"rw": ["lock", "unlock", "rlock", "runlock"], "ro": ["lock", "unlock", "rlock", "runlock"], "mutex": ["lock", "unlock"]}
+
+
+def sched_input(kind, steps):
+    return "sched %s | %s" % (kind, " ".join("%d:%s" % (t, o) for t, o in steps))
+
+
+def sched_parse(inp):
+    head, body = inp.split("|")
+    return head.split()[1], [(int(x.split(":")[0]), x.split(":")[1]) for x in body.split()]
+
+
+def growth_strings(n, maxthreads):
+    """thread assignments up to renaming: thread k+1 appears only after thread k"""
+    def rec(prefix, used):
+        if len(prefix) == n:
+            yield list(prefix)
+            return
+        for t in range(min(used + 1, maxthreads)):
+            prefix.append(t)
+            yield from rec(prefix, max(used, t + 1))
+            prefix.pop()
+    yield from rec([], 0)
+
+
+def sched_tok(t):
+    """'ok+1,2' -> ('ok', [1, 2])"""
+    imm, _, w = t.partition("+")
+    return imm, sorted(int(x) for x in w.split(",") if x)
+
+
+def sched_property(kind, steps, toks):
+    """the property evaluated on the implementation's own outcomes, without the model: holders are counted from the calls that
+    RETURNED ok; returns the first violated clause or None"""
+    w = r = 0
+    pending = {}
+
+    def grant(op):
+        nonlocal w, r
+        if op == "lock":
+            if w or r:
+                return "lock-granted-while-held"
+            w += 1
+        elif op == "rlock":
+            if w:
+                return "read-lock-granted-under-writer"
+            r += 1
+        elif op == "unlock":
+            if not w:
+                return "unlock-of-unheld-lock-succeeded"
+            w -= 1
+        elif op == "runlock":
+            if not r:
+                return "read-unlock-of-unheld-lock-succeeded"
+            r -= 1
+        return None
+    if len(toks) != len(steps) + 1 or not toks[-1].startswith("end:"):
+        return "crash-or-truncated"
+    for (t, op), tok in zip(steps, toks):
+        imm, woken = sched_tok(tok)
+        if imm == "busy":
+            continue
+        if imm == "blocked":
+            if op in ("unlock", "runlock"):
+                return "unlock-blocked"
+            pending[t] = op
+        elif imm == "ok":
+            bad = grant(op)
+            if bad:
+                return bad
+        elif imm.startswith("err:"):
+            if op in ("lock", "rlock"):
+                return "lock-returned-error"
+            if (op == "unlock" and w) or (op == "runlock" and r):
+                return "unlock-of-held-lock-refused"
+            if imm != {"mutex": "err:255"}.get(kind, "err:256" if op == "unlock" else "err:257"):
+                return "wrong-error"
+        else:
+            return "crash-or-truncated"
+        for x in sorted(woken, key=lambda x: pending.get(x) == "lock"):     # readers first
+            if x not in pending:
+                return "woken-call-was-not-blocked"
+            bad = grant(pending.pop(x))
+            if bad:
+                return bad
+    writers_waiting = any(o == "lock" for o in pending.values())
+    for t, op in pending.items():
+        if op == "rlock" and not w and not writers_waiting:
+            return "blocked-reader-never-woken"
+        if op == "lock" and not w and not r:
+            return "blocked-lock-never-woken"
+    return None
+
+
+def sched_state_class(steps, toks, upto):
+    """kinds of the calls blocked before step `upto` according to the token list"""
+    pending = {}
+    for (t, op), tok in list(zip(steps, toks))[:upto]:
+        imm, woken = sched_tok(tok)
+        if imm == "blocked":
+            pending[t] = op
+        for x in woken:
+            pending.pop(x, None)
+    ks = "".join(sorted(set("W" if o == "lock" else "R" for o in pending.values())))
+    return "blocked-" + (ks or "none")
+
+
+def sched_key(kind, steps, o, alts):
+    """canonical class of the first difference against the closest model alternative"""
+    def common(a):
+        n = 0
+        while n < len(a) and n < len(o) and a[n] == o[n]:
+            n += 1
+        return n
+    e = max(alts, key=common)
+    i = common(e)
+    a = o[i] if i < len(o) else None
+    b = e[i] if i < len(e) else None
+    op = steps[i][1] if i < len(steps) else "end"
+    ctx_ = sched_state_class(steps, e, i)
+    if a is None or a.split(":")[0] in ("panic", "fatal", "timeout", "missing"):
+        return "sched:%s:%s:%s:%s" % (kind, op, tok_class(a), ctx_), i, e
+    if op == "end":
+        cnt = lambda x: len([y for y in x[4:].split(",") if y and y != "-"])
+        return "sched:%s:end:still-blocked-exp%d-got%d" % (kind, cnt(b), cnt(a)), i, e
+    ia, wa = sched_tok(a)
+    ib, wb = sched_tok(b)
+    if ia != ib:
+        return "sched:%s:%s:exp-%s:got-%s:%s" % (kind, op, tok_class(ib), tok_class(ia), ctx_), i, e
+    return "sched:%s:%s:woken-exp%d-got%d:%s" % (kind, op, len(wb), len(wa), ctx_), i, e
+
+
+def stream_sched(ctx, h, m):
+    stream = "c25.sched"
+    rng = ctx.rng(stream)
+    thorough = ctx.tier == "thorough"
+    cases, seen = [], set()
+
+    def add(inp, fam):
+        if inp not in seen:
+            seen.add(inp)
+            cases.append((inp, fam))
+    if os.path.exists(CORPUS_SCHED):
+        for l in open(CORPUS_SCHED):
+            l = l.strip()
+            if l and not l.startswith("#"):
+                add(l, "corpus")
+    ncorpus = len(cases)
+    # family A: every call on its own thread (no step is ever refused as busy), every op sequence up to a length
+    la = {"rw": ctx.n(5, 6), "ro": ctx.n(4, 6), "mutex": ctx.n(7, 10)}
+    for kind in ("rw", "ro", "mutex"):
+        for n in range(1, la[kind] + 1):
+            for seq in itertools.product(SCHED_OPS[kind], repeat=n):
+                add(sched_input(kind, list(enumerate(seq))), "own-thread")
+    # family B: 2-3 (thorough: up to 4) named threads that are reused; assignments up to renaming
+    cand = []
+    if thorough:
+        for kind in ("rw", "ro"):
+            for n in range(2, 6):
+                for g in growth_strings(n, 3):
+                    if max(g) + 1 < n:
+                        for seq in itertools.product(SCHED_OPS[kind], repeat=n):
+                            cand.append(sched_input(kind, list(zip(g, seq))))
+        for n in range(2, 9):
+            for g in growth_strings(n, 3):
+                if max(g) + 1 < n:
+                    for seq in itertools.product(SCHED_OPS["mutex"], repeat=n):
+                        cand.append(sched_input("mutex", list(zip(g, seq))))
+    nrand = ctx.n(2600, 30000)
+    for _ in range(nrand):
+        kind = rng.choice(["rw", "rw", "rw", "ro", "ro", "mutex"])
+        n = rng.range(3, 7 if thorough else 6)
+        nt = rng.range(2, 4 if thorough else 3)
+        g, used = [], 0
+        for _i in range(n):
+            t = rng.below(min(used + 1, nt))
+            used = max(used, t + 1)
+            g.append(t)
+        cand.append(sched_input(kind, [(t, rng.choice(SCHED_OPS[kind])) for t in g]))
+    cand = [c for c in dict.fromkeys(cand) if c not in seen]
+    rc, expc, mout = run_model_lines(m, [("b%d" % i, c) for i, c in enumerate(cand)])
+    if rc != 0 or len(expc) != len(cand):
+        ctx.broke("correspondence %s: model driver failed on the candidate scripts (rc %d, %d/%d answers)" % (stream, rc, len(expc), len(cand)), mout[-2000:])
+        return
+    nbusy = 0
+    for i, c in enumerate(cand):
+        if "busy" in expc["b%d" % i]:
+            nbusy += 1          # some step addresses a thread that is still inside a call: not a run of real threads
+        else:
+            add(c, "named-threads")
+    ids = ["s%d" % i for i in range(len(cases))]
+    rc, out = vlib.sh([m, "1"], inp="".join("%s\t%s\n" % (i, c) for i, (c, _) in zip(ids, cases)), timeout=3000)
+    alts = {}
+    for l in out.splitlines():
+        p = l.split("\t")
+        if len(p) >= 2:
+            alts[p[0]] = [a.split() for a in p[1].split(" || ")]
+    rc2, out2 = vlib.sh([m, "1"], inp="".join("%s\t%s\n" % (i, c.replace("sched ", "sched-early ", 1)) for i, (c, _) in zip(ids, cases) if not c.startswith("sched mutex")), timeout=3000)
+    early = {}
+    for l in out2.splitlines():
+        p = l.split("\t")
+        if len(p) >= 2:
+            early[p[0]] = [a.split() for a in p[1].split(" || ")]
+    if rc != 0 or rc2 != 0 or len(alts) != len(cases) or any(a and a[0] and a[0][0].startswith("exn") for a in alts.values()):
+        ctx.broke("correspondence %s: model driver failed (rc %d/%d, %d/%d answers)" % (stream, rc, rc2, len(alts), len(cases)), (out + out2)[-2000:])
+        return
+    nsh = 8
+    shards = [[(i, c, -1) for i, (c, _) in list(zip(ids, cases))[k::nsh]] for k in range(nsh)]
+
+    def one(a):
+        k, sh = a
+        return run_harness_resilient(h, "sched", sh, ctx.workdir, "sched%d" % k, timeout=1500)
+    results = vlib.parallel_map(one, list(enumerate(shards)), workers=nsh)
+    obs, deaths, unrun = {}, 0, 0
+    for o, d, rest in results:
+        obs.update(o)
+        deaths += d
+        unrun += len(rest)
+    if unrun:
+        ctx.broke("correspondence %s: harness could not run %d scripts" % (stream, unrun))
+    dist, nfail, keys_seen = {}, 0, {}
+    n_block, n_mis_blocked, n_sep, n_nondet = 0, 0, 0, 0
+    for i, (c, fam) in zip(ids, cases):
+        kind, steps = sched_parse(c)
+        o = (obs.get(i) or "missing").split()
+        al = alts[i]
+        dk = "%s/%s" % (kind, fam)
+        dist[dk] = dist.get(dk, 0) + 1
+        e0 = al[0]
+        has_block = any(t.startswith("blocked") for t in e0)
+        n_block += has_block
+        # misuse while some call is blocked: an UnlockedError step with a non-empty blocked set before it
+        mis = any(e0[j].startswith("err") and sched_state_class(steps, e0, j) != "blocked-none" for j in range(len(steps)))
+        n_mis_blocked += mis
+        n_nondet += len(al) > 1
+        if i in early and early[i] != al:
+            n_sep += 1
+        if o not in al:
+            nfail += 1
+            key, j, e = sched_key(kind, steps, o, al)
+            keys_seen[key] = keys_seen.get(key, 0) + 1
+            if keys_seen[key] <= 3:
+                ctx.fail(key, "%s: implementation [%s], model [%s] (first difference at step %d `%s`)" %
+                         (c, " ".join(o), " || ".join(" ".join(a) for a in al), j + 1, "%d:%s" % steps[j] if j < len(steps) else "end"),
+                         stream=stream, case=c, impl=" ".join(o), model=" || ".join(" ".join(a) for a in al),
+                         oracle="outcome of every call (ok / UnlockedError / blocked), the blocked calls each step releases, and the calls still blocked at "
+                                "the end must be a run of the extracted script machine (Model/C25_Sched.v)")
+        bad = sched_property(kind, steps, o)
+        if bad:
+            nfail += 1
+            key = "sched-prop:%s:%s" % (kind, bad)
+            keys_seen[key] = keys_seen.get(key, 0) + 1
+            if keys_seen[key] <= 3:
+                ctx.fail(key, "%s: implementation [%s] violates `%s` (holders counted from the calls that returned)" % (c, " ".join(o), bad),
+                         stream=stream, case=c, impl=" ".join(o), model=" || ".join(" ".join(a) for a in al),
+                         oracle="property evaluated on the implementation's own outcomes, no model: a lock is granted only when free (readers share), an "
+                                "unlock succeeds iff a matching lock call has returned and was not yet released, otherwise the documented UnlockedError; "
+                                "at the end no call is left blocked on a free lock (no lost wake-up)")
+    ctx.stream(stream, len(cases), n_mis_blocked,
+               "controlled multi-thread scripts on Mutex, RWMutex and ROMutex through the value-package wrappers: a scheduler goroutine hands "
+               "the calls of a script (thread:op, op in lock unlock read_lock read_unlock) one at a time to named thread goroutines and, after each "
+               "step, waits until every call in flight has returned or is parked inside the Go runtime on the sync primitive (wait reason read "
+               "from an all-goroutine stack dump; no grace period), so calls that BLOCK stay in flight while the script goes on. Family own-thread: "
+               "every op sequence of length <= %d (RWMutex), <= %d (ROMutex), <= %d (Mutex) with each call on a fresh thread; family named-threads: "
+               "%s scripts over 2-%d reused threads, thread assignments up to renaming, scripts that address a thread still inside a call dropped "
+               "(%d). Oracle 1: per step the call's outcome (ok / UnlockedError code / blocked), the blocked calls released by the step, and the "
+               "calls still blocked at the end must equal one of the runs of the extracted script machine of Model/C25_Sched.v (alternatives = "
+               "which blocked writer is served). Oracle 2: the property on the implementation's own outcomes (exclusion, unlock succeeds iff "
+               "held else UnlockedError, no call left blocked on a free lock). non-trivial = the model run contains an unlock of an unheld lock "
+               "(UnlockedError) WHILE another call is blocked; distinct by input"
+               % (la["rw"], la["ro"], la["mutex"], "every script of length <= 5 (Mutex <= 8) on 3 threads + seeded random" if thorough else "seeded random",
+                  4 if thorough else 3, nbusy),
+               [{"input": c, "observed": obs.get(i), "model": " || ".join(" ".join(a) for a in alts[i])} for i, (c, _) in list(zip(ids, cases))[:2] + list(zip(ids, cases))[-2:]],
+               dist, mismatches=nfail, process_deaths=deaths, corpus_cases=ncorpus, failure_classes=keys_seen,
+               scripts_with_a_blocked_call=n_block, scripts_with_misuse_while_blocked=n_mis_blocked,
+               scripts_with_several_allowed_runs=n_nondet, scripts_separating_the_refuted_readlock_order=n_sep)
+
+
 # ---------------------------------------------------------------- c25.elk (misuse through `elk run`, with select)
 
 ERR_RE = re.compile(r'(Std::[\w:]+)\{&: 0x[0-9a-f]+, message: "([^"]*)"')
@@ -899,7 +1180,17 @@ def run(ctx):
         "WaitGroup panic, select send on a closed channel). Only differential-tested: that Go's chan/sync primitives behave as the base "
         "transition systems, that the Go wrappers are these models (c25.misuse: every short sequence through the Go API; c25.elk: the same "
         "through `elk run`, with select), and behaviour under real concurrency (c25.conc Elk programs with `go`, c25.goconc Go goroutines, "
-        "thorough: -race), where schedules are sampled by the Go scheduler, not enumerated.")
+        "thorough: -race), where schedules are sampled by the Go scheduler, not enumerated. Blocked calls as state (Model/C25_Sched.v): scripts of "
+        "(thread, call) steps in which a call that blocks stays in flight while the script continues and later releases wake it (Go's "
+        "discipline: Unlock serves all blocked readers, then one blocked writer, which is pending while readers hold; new readers wait behind "
+        "a pending writer). Proved for every script, any number of threads, every resolution of the which-writer choice: each script state is a "
+        "state of the proved micro-step machine; the mirrored writer flag / reader counter equal the native holders and the lock calls that "
+        "returned and were not released, whatever is blocked (C25_mirror_agrees at micro-step level: native = mirror + calls between their two "
+        "halves); hence an unlock is refused with UnlockedError exactly when no matching lock call has returned. The variant that bumps the reader "
+        "counter before the native RLock is refuted by a witness. No lost wake-up in the script machine (calls are blocked only while a writer holds or is "
+        "pending, a writer is pending only while readers hold) is proved for every script. Differential: c25.sched drives the real wrappers through such scripts under a deterministic scheduler (a call counts as blocked "
+        "when its goroutine is parked on the sync primitive) and compares every outcome, every wake-up and the finally blocked set with the "
+        "extracted script machine; Go's wake-up discipline itself is trusted, confirmed only by this stream.")
     ctx.trusted_base += [
         "Go channels, sync.Mutex, sync.RWMutex, sync.WaitGroup, sync.Once modelled as transition systems (blocking = disabled step; send/close of a closed "
         "channel and a negative WaitGroup counter = panic; unlock of an unlocked lock = fatal); RWMutex writer preference and WaitGroup's "
@@ -908,6 +1199,10 @@ def run(ctx):
         "threads are anonymous (the Go primitives have no owner): calls in progress are counted, thread ids are labels in the ghost trace",
         "atomic.Bool/Int64 operations and each wrapper micro-step are atomic and sequentially consistent (Go memory model not modelled)",
         "the Python program generators, log parsers and linearisation search (Kahn) of c25.conc",
+        "c25.sched: Go's sync.RWMutex/sync.Mutex wake-up discipline as written in Model/C25_Sched.v (all blocked readers, then any one blocked "
+        "writer; writer pending on readers; readers wait behind a pending writer), read off sync/rwmutex.go, not proved; the harness classifies a "
+        "call as blocked when runtime.Stack reports its goroutine parked with a sync wait reason (fallback 700 ms); in the script machine every "
+        "call runs both its micro-steps at once (the step boundary is covered by the micro-step theorems, not by the scripts)",
     ]
     ctx.run_proof_gate()
     try:
@@ -931,6 +1226,8 @@ def run(ctx):
     if h:
         stream_misuse(ctx, h, m)
         lap("c25.misuse")
+        stream_sched(ctx, h, m)
+        lap("c25.sched")
         run_goconc(ctx, "c25.goconc", h, ctx.n(120, 1200))
         lap("c25.goconc")
     try:
